@@ -3633,6 +3633,8 @@ func (e *ExpressionEmitter) emitExpression(handle ir.ExpressionHandle) (uint32, 
 		id, err = e.emitBinary(kind)
 	case ir.ExprSelect:
 		id, err = e.emitSelect(kind)
+	case ir.ExprRelational:
+		id, err = e.emitRelational(kind)
 	case ir.ExprMath:
 		id, err = e.emitMath(kind)
 	case ir.ExprDerivative:
@@ -5351,6 +5353,56 @@ func (e *ExpressionEmitter) emitUnary(unary ir.ExprUnary) (uint32, error) {
 	}
 
 	return e.backend.builder.AddUnaryOp(opcode, resultType, operandID), nil
+}
+
+// emitRelational emits all(), any(), isNan() and isInf().
+func (e *ExpressionEmitter) emitRelational(rel ir.ExprRelational) (uint32, error) {
+	argID, err := e.emitExpression(rel.Argument)
+	if err != nil {
+		return 0, err
+	}
+	argType, err := ir.ResolveExpressionType(e.backend.module, e.function, rel.Argument)
+	if err != nil {
+		return 0, fmt.Errorf("relational argument type: %w", err)
+	}
+	inner := argType.Value
+	if argType.Handle != nil {
+		inner = e.backend.module.Types[*argType.Handle].Inner
+	}
+	boolScalar := ir.ScalarType{Kind: ir.ScalarBool, Width: 1}
+	vec, isVec := inner.(ir.VectorType)
+
+	var opcode OpCode
+	var resultRes ir.TypeResolution
+	switch rel.Fun {
+	case ir.RelationalAll, ir.RelationalAny:
+		if !isVec {
+			// all(b) == any(b) == b for a scalar bool
+			return argID, nil
+		}
+		opcode = OpAll
+		if rel.Fun == ir.RelationalAny {
+			opcode = OpAny
+		}
+		resultRes = ir.TypeResolution{Value: boolScalar}
+	case ir.RelationalIsNan, ir.RelationalIsInf:
+		opcode = OpIsNan
+		if rel.Fun == ir.RelationalIsInf {
+			opcode = OpIsInf
+		}
+		if isVec {
+			resultRes = ir.TypeResolution{Value: ir.VectorType{Size: vec.Size, Scalar: boolScalar}}
+		} else {
+			resultRes = ir.TypeResolution{Value: boolScalar}
+		}
+	default:
+		return 0, fmt.Errorf("unsupported relational function: %v", rel.Fun)
+	}
+	resultType, err := e.backend.resolveTypeResolution(resultRes)
+	if err != nil {
+		return 0, err
+	}
+	return e.backend.builder.AddUnaryOp(opcode, resultType, argID), nil
 }
 
 // emitBinary emits a binary operation.
